@@ -675,18 +675,26 @@ async fn resume_case(rep: &mut Report, tr: Transport, sndtimeo_ms: i32) {
   while let Ok(Ok(_)) = tokio::time::timeout(Duration::from_millis(100), slow.recv()).await {}
   while let Ok(Ok(_)) = tokio::time::timeout(Duration::from_millis(100), fast.recv()).await {}
   // the subscriber that keeps up reads all the time
+  let publishing_over = Arc::new(AtomicBool::new(false));
   let fast_reader = {
     let f = fast.clone();
+    let over = publishing_over.clone();
     tokio::spawn(async move {
       let mut got: Vec<Vec<u8>> = vec![];
       let mut idle = 0;
-      while idle < 3 {
+      let t = Instant::now();
+      // silence only counts once the publisher has finished
+      while idle < 3 && t.elapsed() < Duration::from_secs(120) {
         match f.recv().await {
           Ok(m) => {
             idle = 0;
             got.push(m.data().unwrap_or(&[]).to_vec());
           }
-          Err(_) => idle += 1,
+          Err(_) => {
+            if over.load(Ordering::SeqCst) {
+              idle += 1;
+            }
+          }
         }
       }
       got
@@ -722,7 +730,8 @@ async fn resume_case(rep: &mut Report, tr: Transport, sndtimeo_ms: i32) {
     }
   }
   // the subscriber that kept up
-  let fast_got: Vec<Vec<u8>> = tokio::time::timeout(Duration::from_secs(20), fast_reader).await.ok().and_then(|x| x.ok()).unwrap_or_default();
+  publishing_over.store(true, Ordering::SeqCst);
+  let fast_got: Vec<Vec<u8>> = tokio::time::timeout(Duration::from_secs(30), fast_reader).await.ok().and_then(|x| x.ok()).unwrap_or_default();
   rep.case(&("resume", tr, sndtimeo_ms), true);
   rep.count("resume_slow_subscriber_got_of_burst", slow_burst);
   rep.max("max:resume_slowest_publish_ms", slowest.as_millis() as u64);
